@@ -174,6 +174,12 @@ impl<'a, E: Engine> Engine for PairEngine<'a, E> {
     }
     // the generator's enumerated sub-space, strided down to at most 300 000 cases in the quick tier (every case of it
     // in the thorough tier up to 20 million)
+    fn mini_len(&self, _prop: &str) -> u64 {
+        self.inner.mini_len(&self.gen)
+    }
+    fn mini_case(&self, _prop: &str, i: u64) -> Case {
+        self.inner.mini_case(&self.gen, i)
+    }
     fn exh_len(&self, _prop: &str, tier: Tier) -> u64 {
         let n = self.inner.exh_len(&self.gen, tier);
         n / self.exh_stride(tier, n).max(1)
